@@ -11,6 +11,9 @@ def claim(pid, text, note, technique, category="other", design="DESIGN.md §5 " 
 exec(open(os.path.join(V, "claims.py")).read())
 
 NOT_APPLICABLE = globals().get("NOT_APPLICABLE", {})
+# properties whose rule modules go through rules/sem.py
+SEM_BASED = {pid for pid in ids if os.path.exists(os.path.join(V, "rules", pid + ".py")) and
+             "sem." in open(os.path.join(V, "rules", pid + ".py")).read()}
 checks = []
 for pid in ids:
     if pid not in CLAIMS:
@@ -25,7 +28,9 @@ for pid in ids:
         "engine": "wf-facts+rules",
         "level_claimed": {"category": c["category"], "text": c["text"], "design_ref": c["design"]},
         "level_note": c["note"],
-        "technique": c["technique"],
+        "technique": c["technique"] + ("; guards and tables are read from path conditions over the resolved HIR (match/if-let/let-else/early "
+                                       "return/`?`/matches! alike, private same-file helpers inlined, locals resolved to their definitions)"
+                                       if pid in SEM_BASED else ""),
     })
 m = {
     "version": 1,
@@ -36,7 +41,7 @@ m = {
               "source_commits": [], "add_only": True},
     "engines": [{"name": "wf-facts+rules", "path": "driver/ rules/ check",
                  "serves_properties": [c["property_id"] for c in checks],
-                 "kind_free_text": "static analysis: nightly rustc_private driver extracts resolved HIR, MIR (CFG, dominators, casts, resolved callees), ADT/impl/static tables and a monomorphic call graph from a snapshot of /repo; Python rules (tables, dominance, who-may-write, call-graph reachability, sibling agreement) decide each property; compile_fail witnesses for type-level clauses"}],
+                 "kind_free_text": "static analysis: nightly rustc_private driver extracts resolved HIR, MIR (CFG, dominators, casts, resolved callees), ADT/impl/static tables and a monomorphic call graph from a snapshot of /repo; Python rules (tables, path conditions / dominance, who-may-write, call-graph reachability, sibling agreement) decide each property; compile_fail witnesses for type-level clauses"}],
     "checks": checks,
     "not_applicable": [{"property_id": i, "reason": NOT_APPLICABLE.get(i, "check under construction (see DESIGN.md); not claimed yet")} for i in ids if i not in CLAIMS],
     "notes": "All checks share one fact extraction per tree (cached by content hash of /repo's working tree). Genuine defects found and repaired are listed in known_findings.json (status fixed); unrepaired ones are status known and printed as KNOWN-FINDING.",
